@@ -32,7 +32,7 @@ RULE = (
     'Part every_statement enumerates EVERY statement index of every step of a '
     'dataset as fault point and as kill point (exhaustive per dataset); part '
     'sigkill delivers a real SIGKILL in a child process at a chosen '
-    'statement; part fine_grid does the every-statement enumeration for a set-zeta-grid that stores 100,001-250,000 levels. Oracle (model = set of completed steps with arguments): after '
+    'statement; part fine_grid does the every-statement enumeration for a set-zeta-grid that stores 100,001-250,000 levels; part fine_history faults and kills rise / recession while they store > 10,000 crossing rows each. Oracle (model = set of completed steps with arguments): after '
     'every operation the logical dump of the file equals the dump of a '
     'reference file built by running exactly the completed steps once each '
     'in canonical order on a fresh copy of the loaded dataset (a failed, '
@@ -309,6 +309,9 @@ def check_history(case):
     if ('non-canonical-order' in labels and labels & {
             'fault-after-first-write', 'kill-after-first-write'}):
         labels.add('nontrivial')
+    if case.get('fine_grid') and labels & {
+            'fault-after-first-write', 'kill-after-first-write'}:
+        labels.update({'nontrivial', 'crossing-rows>10000'})
     labels.add('completed:{}'.format(len(order)))
     return labels
 
@@ -367,6 +370,30 @@ def fine_grid_cases(draw):
     target = draw(st.sampled_from([100001, 120000, 200001, 250000]))
     record['fine_grid'] = repr(span / target)
     record['sequence'] = ['set-zeta-grid']
+    return record
+
+
+@st.composite
+def fine_history_cases(draw):
+    """A grid of about 6000 levels: rise and recession each store more than
+    ten thousand crossing rows, one statement per row; faults and kills fall
+    anywhere in that stream."""
+    record = draw(gen_truth.truth_records(
+        noise=True, min_storms=4, max_storms=5, curve_len=30))
+    levels = [v for _, v in record['wl']]
+    span = max(levels) - min(levels) or 1.0
+    record['fine_grid'] = repr(span / draw(st.sampled_from([5000, 6000, 7000])))
+    frac = st.floats(0.1, 0.999)
+    ops = [{'kind': 'run', 'step': 'classify', 'arg': 0},
+           {'kind': 'run', 'step': 'set-zeta-grid', 'arg': 0}]
+    for step in draw(st.permutations(['rise', 'recession'])):
+        ops.append({'kind': 'fault', 'step': step, 'arg': 0,
+                    'frac': draw(frac), 'exc': draw(st.sampled_from(
+                        ['sqlite', 'runtime', 'interrupt']))})
+        ops.append({'kind': 'kill', 'step': step, 'arg': 0,
+                    'frac': draw(frac)})
+        ops.append({'kind': 'run', 'step': step, 'arg': 0})
+    record['ops'] = ops
     return record
 
 
@@ -449,6 +476,14 @@ PARTS = [
          shards={'quick': 3, 'thorough': 16},
          describe='set-zeta-grid storing 100,001-250,000 levels: every '
                   'statement as fault and kill point'),
+    Part('fine_history', check_history,
+         strategy=lambda tier: fine_history_cases(),
+         # (the first example Hypothesis tries is the simplest record, on
+         # which rise has nothing to store; the second one is random)
+         budget={'quick': 2, 'thorough': 3},
+         shards={'quick': 3, 'thorough': 16},
+         describe='rise / recession storing > 10,000 crossing rows each, '
+                  'faulted and killed inside that stream'),
     Part('sigkill', check_sigkill, strategy=lambda tier: sigkill_cases(),
          budget={'quick': 3, 'thorough': 12},
          shards={'quick': 4, 'thorough': 16},
